@@ -11,5 +11,7 @@ def run(rep, tier, seed):
     for N, M in bounds:
         h = ops.OpHarness("p-entailment", N, M, pm="", weakly=False)
         drive.run_op(rep, h)
+    from ._common import lookalike_history
+    lookalike_history(rep, 'p-entailment', '')
     drive.stub_validation(rep, systems=["p-entailment"])
     rep.assumptions.append("bounds: N<=3 atoms-worth of distinguishable worlds, M<=3 conditionals (quick); N<=4, M<=5 (thorough); strict mode; keys 1..M")
